@@ -52,3 +52,15 @@ class LazyNode(Node):
             if k in kw:
                 deps.append(("D", kw[k].result_name, kw[k].result))
         return (self.result_name, tuple(deps))
+
+
+class Strict(Command):
+    """a command with a required parameter (for missing-parameter faults)"""
+    inputs = {"Needed": params.NumberParameter(), "D": params.ResultParameter(required=False),
+              "L": params.ListParameter(params.ResultParameter(), required=False),
+              "NL": params.ListParameter(params.ListParameter(params.ResultParameter()), required=False)}
+    output = params.Parameter()
+
+    def execute(self, **kw):
+        LOG.append(self.result_name)
+        return None
